@@ -15,7 +15,7 @@
 
 static int thorough;
 
-typedef struct { int ver, kx; uint16_t suite; int cauth, resume, bad, tickets; const char *name; } scen_t;
+typedef struct { int ver, kx; uint16_t suite; int cauth, resume, bad, tickets; const char *name; int pipeline; } scen_t;
 static const scen_t scens[] = {
     { V_TLS12, KX_PSK, 0, 0, 0, 0, 0, "tls12-psk-full" },
     { V_TLS11, KX_PSK, 0, 0, 0, 0, 0, "tls11-psk-full" },
@@ -28,6 +28,13 @@ static const scen_t scens[] = {
     { V_TLS12, KX_ECDHE_RSA, 0, 0, 1, 0, 1, "tls12-ecdhe-ticket-resumed" },
     { V_TLS13, KX_13_RSA, 0, 0, 1, 0, 1, "tls13-rsa-psk-resumed" },
     { V_TLS11, KX_RSA, 0, 0, 0, 0, 0, "tls11-rsa-full" },
+    /* pipelining applications: each side writes its three messages the moment ITS OWN handshake completes, so the last
+       handshake flight and application records travel back to back (one receive call in the reference run, split in every
+       other schedule), and the receiver still has output of its own pending (NewSessionTicket) when they arrive */
+    { V_TLS13, KX_13_RSA, 0, 0, 0, 0, 1, "tls13-rsa-tickets-pipelined", 1 },
+    { V_TLS13, KX_13_PSK, 0, 0, 0, 0, 0, "tls13-psk-pipelined", 1 },
+    { V_TLS12, KX_PSK, 0, 0, 1, 0, 0, "tls12-psk-resumed-pipelined", 1 },
+    { V_TLS12, KX_ECDHE_RSA, 0, 0, 0, 0, 1, "tls12-ecdhe-tickets-pipelined", 1 },
 };
 #define NSCEN ((int) (sizeof(scens) / sizeof(scens[0])))
 
@@ -40,6 +47,8 @@ typedef struct {
     int nb[2], bound[2][MAXB];       /* record boundaries (offsets where a record starts) */
     int dlen[2];
     uint64_t dhash[2];
+    int mid_dlen[2];                 /* pipelined scenarios: plaintext delivered when everything sent so far has been received and nobody has anything left to send (before the closure) */
+    uint64_t mid_dhash[2];
     int complete[2], resumed[2];
     uint64_t alerts_hash;
     uint64_t entropy_draws, entropy_bytes;
@@ -150,6 +159,25 @@ static int deliver_dir(world_t *w, run_t *R, int d, const sched_t *sc)
     return n;
 }
 
+static int pipeline_on, app_written[2];
+static void app_messages(world_t *w, int d)
+{
+    static unsigned char msg[40100];
+    int k, i;
+    /* small messages: the whole pipelined flight fits into one receive buffer, so that in the reference run the records
+       behind the one being acknowledged are already complete in the session's input buffer */
+    static const int plen[3] = { 6, 5, 1 };
+    for (k = 0; k < 3; k++)
+    {
+        int len = plen[k];
+        for (i = 0; i < len; i++)
+        {
+            msg[i] = (unsigned char) (k * 17 + d * 91 + i * 3);
+        }
+        world_app_send(w, d, msg, len);
+    }
+}
+
 static int quiesce(world_t *w, run_t *R, const sched_t *sc)
 {
     int guard = 0, progress = 1;
@@ -160,6 +188,12 @@ static int quiesce(world_t *w, run_t *R, const sched_t *sc)
         for (d = 0; d < 2; d++)
         {
             collect_side(w, R, d, sc);
+            if (pipeline_on && !app_written[d] && world_is_complete(w, d) && w->s[d].err_rc >= 0)
+            {
+                app_written[d] = 1;
+                app_messages(w, d);
+                collect_side(w, R, d, sc);
+            }
             if ((int) R->out[d].len > R->fed[d])
             {
                 deliver_dir(w, R, d, sc);
@@ -206,6 +240,27 @@ static void run_scenario(int si, const sched_t *sc, obs_t *o)
         buf_clear(&R.out[0]); buf_clear(&R.out[1]);
         R.fed[0] = R.fed[1] = 0;
     }
+    pipeline_on = S->pipeline;
+    app_written[0] = app_written[1] = 0;
+    if (S->pipeline)
+    {
+        uint64_t e0 = env_entropy_draws, b0 = env_entropy_bytes;
+        quiesce(&w, &R, sc);
+        for (d = 0; d < 2; d++)
+        {
+            o->mid_dlen[d] = (int) w.s[d].delivered.len;
+            o->mid_dhash[d] = fnv1a(w.s[d].delivered.p, w.s[d].delivered.len, FNV0);
+        }
+        if (world_is_complete(&w, 0) && world_is_complete(&w, 1))
+        {
+            world_close(&w, 0);
+            quiesce(&w, &R, sc);
+        }
+        o->entropy_draws = env_entropy_draws - e0;
+        o->entropy_bytes = env_entropy_bytes - b0;
+        pipeline_on = 0;
+    }
+    else
     {
         uint64_t e0 = env_entropy_draws, b0 = env_entropy_bytes;
         quiesce(&w, &R, sc);
@@ -376,6 +431,10 @@ static void run_case(void *ctx, mx_result_t *r)
         {
             sym = "delivered-plaintext-differs";
         }
+        else if (o.mid_dlen[d] != ref->mid_dlen[d] || o.mid_dhash[d] != ref->mid_dhash[d])
+        {
+            sym = "plaintext-delivered-so-far-differs-at-quiescence";
+        }
         else if (o.complete[d] != ref->complete[d] || o.resumed[d] != ref->resumed[d])
         {
             sym = "handshake-result-differs";
@@ -392,6 +451,10 @@ static void run_case(void *ctx, mx_result_t *r)
     if (!sym && (o.entropy_draws != ref->entropy_draws || o.entropy_bytes != ref->entropy_bytes))
     {
         sym = "entropy-draws-differ";
+    }
+    if (getenv("MXV_DEBUG"))
+    {
+        fprintf(stderr, "mid delivered %d/%d (ref %d/%d), final %d/%d (ref %d/%d)\n", o.mid_dlen[0], o.mid_dlen[1], ref->mid_dlen[0], ref->mid_dlen[1], o.dlen[0], o.dlen[1], ref->dlen[0], ref->dlen[1]);
     }
     snprintf(r->outcome, sizeof(r->outcome), "%s:%s:%s", scens[c->si].name, mname[c->sc.mode], sym ? sym : "same");
     r->trace_hash = fnv1a(o.stream[0], (size_t) o.slen[0], fnv1a(o.stream[1], (size_t) o.slen[1], FNV0));
